@@ -653,6 +653,16 @@ func symConv(fr *frame, dst types.BasicKind, x sym) value {
 			t = x.t
 		case dw < sw:
 			t = fmt.Sprintf("((_ extract %d 0) %s)", dw-1, x.t)
+			// truncating back an extension: ((_ extract dw-1 0) ((_ zero_extend sw-dw) y)) = y
+			for _, ext := range []string{"zero_extend", "sign_extend"} {
+				pre := fmt.Sprintf("((_ %s %d) ", ext, sw-dw)
+				if strings.HasPrefix(x.t, pre) && strings.HasSuffix(x.t, ")") {
+					inner := x.t[len(pre) : len(x.t)-1]
+					if !strings.ContainsAny(inner, " ()") || balanced(inner) {
+						t = inner
+					}
+				}
+			}
 		case bkSigned(x.bk):
 			t = fmt.Sprintf("((_ sign_extend %d) %s)", dw-sw, x.t)
 		default:
@@ -952,4 +962,20 @@ func intLikeBinop(pc *pathCtx, op token.Token, x, y value) (value, bool) {
 		return mkBool(pc, "(bvsge "+a.bv+" "+b.bv+")"), true
 	}
 	return nil, false
+}
+
+func balanced(s string) bool {
+	d := 0
+	for _, c := range s {
+		switch c {
+		case '(':
+			d++
+		case ')':
+			d--
+			if d < 0 {
+				return false
+			}
+		}
+	}
+	return d == 0 && strings.HasPrefix(s, "(")
 }
